@@ -59,6 +59,13 @@ def _check_structure(mp, uf, Ns):
         if len(set(uf.find((p, i)) for i in range(Ns[p]))) == Ns[p]:
             assert np.array_equal((X.T @ X).toarray(), np.eye(Ns[p])), 'transpose is not a left inverse'
         assert np.array_equal(mp.global_to_patch(p).toarray(), D.T)
+        # j_global=True: the same matrix placed in the column block of patch p within the concatenation of all local numberings
+        XG = mp.patch_to_global(p, j_global=True).toarray()
+        ofs = int(np.sum(Ns[:p]))
+        assert XG.shape == (n, int(np.sum(Ns))), 'patch_to_global(j_global=True) has shape %r' % (XG.shape,)
+        assert np.array_equal(XG[:, ofs:ofs + Ns[p]], D), 'column block of patch %d in the j_global matrix differs from patch_to_global(%d)' % (p, p)
+        XG[:, ofs:ofs + Ns[p]] = 0
+        assert not XG.any(), 'j_global matrix of patch %d has entries outside its own column block' % p
     # representation invariant
     for s, members in enumerate(mp.shared_dofs):
         assert members, 'empty shared dof %d after finalize' % s
